@@ -21,7 +21,7 @@ from .. import multi
 ID = "C05"
 LEVEL = "exploration"
 RULE = ("the same randomly generated query (providers: multi-variable join/disjunction/negation queries biased towards "
-        "conjunctions of disjunctions over different variables, for_all queries, nested sub-queries, rule trees) is built "
+        "conjunctions of disjunctions over different variables, for_all queries, nested sub-queries, rule trees, flatten queries) is built "
         "fresh and evaluated three times under caching enabled and built fresh and evaluated three times under caching disabled; "
         "the results are compared pairwise (first, second, third evaluation) with each other and with the oracle. Non-trivial: the caching-enabled run "
         "took at least one cache hit (IndexedCache.check returned True) and the result is neither empty nor the whole "
@@ -37,8 +37,8 @@ ASSUMPTIONS = ["both configurations are evaluated on fresh expression trees over
 
 
 def providers():
-    from . import c10, c12, c15
-    return {"multi": None, "forall": c10, "nested": c15, "ruletree": c12}
+    from . import c10, c12, c15, c16
+    return {"multi": None, "forall": c10, "nested": c15, "ruletree": c12, "flatten": c16}
 
 
 def plan(tier, seed):
@@ -48,7 +48,7 @@ def plan(tier, seed):
 
 def floors(tier):
     return {"distinct_nontrivial": 300, "cls:took_cache_hit": 400, "cls:provider:multi": 300, "cls:provider:forall": 50,
-            "cls:provider:nested": 50, "cls:provider:ruletree": 30, "cache.check.hit": 2000, "cache.retrieve": 1000}
+            "cls:provider:nested": 50, "cls:provider:ruletree": 30, "cls:provider:flatten": 50, "cache.check.hit": 2000, "cache.retrieve": 1000}
 
 
 def _gen_multi(rng):
@@ -69,8 +69,10 @@ def cases(spec, ctx):
     for i in range(spec["n"]):
         rng = ctx.rng(spec["sub"], i)
         k = rng.random()
-        if k < 0.62:
+        if k < 0.55:
             yield {"provider": "multi", "case": _gen_multi(rng)}
+        elif k < 0.62:
+            yield {"provider": "flatten", "case": provs["flatten"].gen_case(rng)}
         elif k < 0.78:
             yield {"provider": "forall", "case": provs["forall"].gen_case(rng)}
         elif k < 0.92:
